@@ -126,6 +126,27 @@ Definition C13_srv_ok (local_port conn_port : Z) (auth_enabled : bool) (socks : 
    | None => true
    end).
 
+(* What a forwarded packet carries besides header and payload (theorem
+   C13_forward_extensions): if the end-to-end extension of the received packet
+   directly follows the SCION header, all its options in their order
+   (authenticator included); otherwise none of them.  The receive-timestamp
+   option the forwarder may append (and timestamp options in general) are left
+   out of the comparison. *)
+Definition strip_ts (os : list opt) : list opt := filter (fun o => negb (o_type o =? OPT_TIMESTAMP)) os.
+
+Fixpoint opts_same (a b : list opt) : bool :=
+  match a, b with
+  | [], [] => true
+  | x :: a', y :: b' => (o_type x =? o_type y) && bytes_eqb (o_data x) (o_data y) && opts_same a' b'
+  | _, _ => false
+  end.
+
+Definition C13_srv_fwdext_ok (local_port : Z) (q : rx) (obs : list sobs) : bool :=
+  if for_service local_port q || match rx_l4 q with Scmp _ _ _ => true | _ => false end then true
+  else forallb (fun o => rx_ok (so_rx o) &&
+                         opts_same (strip_ts (rx_opts (so_rx o)))
+                                   (if h_next (rx_hdr q) =? E2E_CLASS then strip_ts (rx_opts q) else [])) obs.
+
 (* no datagram seen claims the server's authentication *)
 Definition no_srv_auth (obs : list sobs) : bool :=
   forallb (fun o => match carries_auth spi_server (so_rx o) with Some _ => false | None => true end) obs.
